@@ -8,6 +8,12 @@ NOT_APPLICABLE = {f"C{i:02d}": _PENDING for i in range(1, 21)}
 TRUST = "Trusted: rustc/std float semantics, the harness' own oracle code, the python driver. Held = held on the executions observed (exhaustive only for the sub-domains named in evidence)."
 
 CLAIMS = {
+    "C06": {
+        "text": "Runtime monitor with an exact-integer oracle over the real IntoStimulus/FromStimulus impls: thorough sweeps all 2^32 f32 bit patterns into u8,u16,u32,u64,u128 (quick: stride 509 plus dense windows at every exponent boundary, k/255 grid, ties and the hostile set), judges saturation (<=0, -inf -> 0; >=1, +inf, NaN -> MAX), nearest-integer within one rounding, and monotonicity over ascending patterns; f64 inputs are hostile/structured/seeded; all u8 and u16 sources and a strided+windowed u32 set (u64/u128 seeded+structured) go to every target with 0->0, MAX->1.0|MAX, monotonicity, widen/narrow and int->float->int round trips; into_format wiring on Rgb/Rgba/Luma.",
+        "design_ref": "DESIGN.md section 3, C06",
+        "note": TRUST + " The oracle shares no code with palette's bit tricks (rational arithmetic on mantissa/exponent).",
+        "technique": "runtime monitoring: exhaustive/stratified sweep of the real conversion impls against an exact rational-arithmetic oracle, plus monotonicity stream monitor",
+    },
     "C11": {
         "text": "Runtime monitor with an exact oracle: every f32 angle with |x| <= 2^20 (thorough: all 2.47e9 bit patterns x 5 hue types x both normal forms; quick: stride-64 sweep plus all patterns within 2^10 of every multiple of 180) is normalised by the real code and checked against the exact residue modulo 360; equality across whole turns on all integer angles +-100000 x +-100 turns, inequality beyond rounding, cartesian and radian accessors, and the complete u8 circle. Exploration level: exhaustive on the f32 sub-domain in the thorough tier, sampled for f64.",
         "design_ref": "DESIGN.md section 3, C11",
